@@ -300,7 +300,12 @@ func (vm *Vm) runCroak(ctx context.Context, b []byte) ([]byte, error) {
 	if r {
 		logg.InfoCtxf(ctx, "croak! purging and moving to top", "signal", sig)
 		vm.Reset()
+		// purge all loaded symbols, but keep one cache scope per navigation level
+		levels := vm.ca.Levels()
 		vm.ca.Reset()
+		for vm.ca.Levels() < levels {
+			vm.ca.Push()
+		}
 		b = []byte{}
 	}
 	return b, nil
